@@ -9,7 +9,10 @@ def load(n):
     except (OSError, ValueError):
         return {}
 res, mx = load("results.json"), load("matrix.json")
-ids = sorted(d for d in os.listdir(S) if os.path.isdir(os.path.join(S, d)))
+import re
+def natural(d):
+    return [int(x) if x.isdigit() else x for x in re.split(r"(\d+)", d)]
+ids = sorted((d for d in os.listdir(S) if os.path.isdir(os.path.join(S, d))), key=natural)
 out = ["# Seeded changes", "",
        "Each directory holds `patch.diff` (the change), `demo_test.go` (fails with it, passes without it) and `meta.json` "
        "(property, what it needs to manifest, what was run to validate it). None of these is ever committed to /repo.", "",
@@ -20,7 +23,9 @@ for sid in ids:
     if m.get("kind") == "refactoring":
         refs.append((sid, m))
         continue
-    own = res.get(sid, {}).get("%s/quick" % m["property"], {}).get("verdict", "?")
+    # the newest verdict of the own check: the isolated-worktree matrix (re-run with the final
+    # checks), else the earlier run with the patch applied to /repo itself
+    own = mx.get(sid, {}).get("%s/quick" % m["property"], {}).get("verdict") or res.get(sid, {}).get("%s/quick" % m["property"], {}).get("verdict", "?")
     others = sorted(k.split("/")[0] for k, v in mx.get(sid, {}).items()
                     if isinstance(v, dict) and v.get("verdict") == "caught" and not k.startswith(m["property"] + "/"))
     clean = lambda t: " ".join(str(t).split()).replace("|", "/")
